@@ -17,7 +17,11 @@ class P(Prop):
     ID = "C14"
     MODULE = "C14"
     THEOREMS = ["C14_shapes", "C14_mul_assign", "C14_polyn_translate", "C14_value_scale", "C14_value_neg", "C14_value_add",
-                "C14_value_sub", "C14_value_translate", "C14_example"]
+                "C14_value_sub", "C14_value_translate", "C14_example",
+                "C14_value_log_scale", "C14_value_log_neg", "C14_value_log_add", "C14_value_log_translate",
+                "C14_value_intoflog_scale", "C14_value_intoflog_neg", "C14_value_intoflog_add", "C14_value_intoflog_translate",
+                "C14_value_quartic_scale", "C14_value_quartic_neg", "C14_value_quartic_add", "C14_value_quartic_sub",
+                "C14_value_quartic_translate"]
     KERNELS = KERNELS
     RULE = ("all 124 operator kernels (Mul, MulAssign, Neg, Add, Sub, Translate on Poly0..8, Log<.>, IntOfLog<.>, IntOfLogPoly4 "
             "incl. the reference-operand impls) are regenerated from the source and checked lane by lane inside Coq for ALL inputs; "
